@@ -221,6 +221,10 @@ class InputsMachine(Machine):
         yy, xx = np.mgrid[-3:4, -3:4]
         P['kernel'] = np.exp(-(xx ** 2 + yy ** 2) / 3.4) * 2.7
         P['footprint'] = np.ones((3, 3), bool)
+        fy, fx = np.mgrid[-3:4, -3:4]
+        P['footprint_circ'] = np.hypot(fx, fy) <= 3.2     # corners excluded
+        P['footprint_cross'] = np.array([[0, 1, 0], [1, 1, 1], [0, 1, 0]],
+                                        dtype=bool)
         srcs = sc['srcs']
         P['xpos'] = np.array([s[0] for s in srcs])
         P['ypos'] = np.array([s[1] for s in srcs])
@@ -246,6 +250,13 @@ class InputsMachine(Machine):
             if fn:
                 tt[fn] = np.array([s[2] * 10 for s in srcs])
             P[key] = tt
+        # unit-ful start values in a unit that converts to the data unit
+        tq = QTable()
+        tq['x'] = P['xpos'] + 0.2
+        tq['y'] = P['ypos'] - 0.1
+        tq['flux'] = np.array([s[2] * 10 for s in srcs]) * 1e3 * u.mJy
+        tq['local_bkg'] = np.array([0.5] * len(srcs)) * 1e3 * u.mJy
+        P['init_q'] = tq
         # box sizes / border widths handed over as integer ndarrays, one
         # element larger than the image (it is clipped)
         P['pair_arr'] = np.array([10, 500])
@@ -612,9 +623,11 @@ class InputsMachine(Machine):
         if f is centroid_2dg and error is not None:
             kw['error'] = error
         return self._run(st, op, lambda: centroid_sources(
-            data, P['xpos'], P['ypos'], box_size=7, mask=mask,
-            footprint=P['footprint'].repeat(3, 0).repeat(3, 1)[:7, :7]
-            if v == 4 else None, centroid_func=f, **kw))
+            data, P['xpos'], P['ypos'],
+            box_size=None if v in (4, 5) else 7, mask=mask,
+            footprint=(P['footprint'].repeat(3, 0).repeat(3, 1)[:7, :7]
+                       if v == 4 else P['footprint_circ'] if v == 5
+                       else None), centroid_func=f, **kw))
 
     def _s_find_peaks(self, st, op, data, mask, error):
         from photutils.centroids import centroid_com
@@ -627,6 +640,7 @@ class InputsMachine(Machine):
             thr = thr * u.Jy
         return self._run(st, op, lambda: find_peaks(
             data, thr, box_size=5, footprint=P['footprint'] if v == 3
+            else P['footprint_cross'] if v == 1 and op.get('opt', 0) % 2
             else None, mask=mask, centroid_func=centroid_com if v == 2
             else None, border_width=P['pair_arr2']
             if op.get('opt', 0) == 7 else [None, 2, (1, 3), None, 0, 4][v],
@@ -745,7 +759,7 @@ class InputsMachine(Machine):
                                xy_bounds=2.0 if o == 1 else None,
                                aperture_radius=4)
         if op['data'] == 'q' and init is not None:
-            init = None
+            init = P['init_q'] if op.get('opt', 0) % 2 else None
 
         def fn():
             ph(data, mask=mask, error=error, init_params=init)
@@ -1209,8 +1223,21 @@ class InputsMachine(Machine):
         if 'g2d' not in P:
             P['g2d'] = Gaussian2D(1.0, 0.0, 0.0, 1.3, 1.3)
             st.d0['g2d'] = _digest_any(P['g2d'])
+            # core + halo: a compound model shares its leaves' parameters
+            core = Gaussian2D(1.0, 0.0, 0.0, 1.2, 1.2)
+            halo = Gaussian2D(0.1, 0.0, 0.0, 3.0, 3.0)
+            P['g2d_core'], P['g2d_halo'] = core, halo
+            P['g2d_sum'] = core + halo
+            for k in ('g2d_core', 'g2d_halo', 'g2d_sum'):
+                st.d0[k] = _digest_any(P[k])
 
         def fn():
+            if op.get('opt', 0) >= 4:
+                m = make_psf_model(P['g2d_sum'], x_name='x_mean_0',
+                                   y_name='y_mean_0',
+                                   normalize=bool(op['variant'] % 2))
+                yy, xx = np.mgrid[0:9, 0:9]
+                return m(xx, yy)
             m = make_psf_model(P['g2d'], x_name='x_mean', y_name='y_mean',
                                normalize=bool(op['variant'] % 2))
             ph = PSFPhotometry(m, 5, aperture_radius=4)
